@@ -1153,6 +1153,12 @@ impl Session {
         old(self).link_name_by_output_handle.spec_vacant_key() < 0x1_0000_0000,   // ASSUMED: fewer than 2^32 link handles are live (the handle is `key as u32`)
     ensures
         !(old(self).local_state is Mapped) ==> r is Err && *final(self) == *old(self),                  // [C13.link.attach-only-when-mapped] no link can be allocated (so no attach sent) unless the session is mapped
+        !(old(self).local_state is Mapped) ==> (match old(self).session_stop_reason.val() {
+            Some(reason) => r == Err::<OutputHandle, AllocLinkError>(AllocLinkError::SessionStopped(reason)),       // [C14.session.attach-on-a-stopped-session-reports-the-reason] an attach on a session that has stopped fails with the reason the session published (the peer's end error, the connection's close, an engine failure) ...
+            None => if old(self).local_state is EndSent || old(self).local_state is EndReceived || old(self).local_state is Discarding {
+                r == Err::<OutputHandle, AllocLinkError>(AllocLinkError::SessionStopped(SessionStopReason::Ended))       // ... while it is ending, with "ended" ...
+            } else { r == Err::<OutputHandle, AllocLinkError>(AllocLinkError::SessionNotMapped) },                          // ... and with "not mapped" only when it has not begun
+        }),
         old(self).local_state is Mapped && old(self).link_by_name@.contains_key(link_name)
             ==> r == Err::<OutputHandle, AllocLinkError>(AllocLinkError::DuplicatedLinkName) && *final(self) == *old(self),   // [C11.name.unique] a link name is attached at most once per session
         old(self).local_state is Mapped && !old(self).link_by_name@.contains_key(link_name) ==> r is Ok && ({
@@ -1221,7 +1227,7 @@ impl Session {
 
 //@@ fn file=fe2o3-amqp/src/session/mod.rs impl=`impl endpoint::Session for Session` name=on_incoming_attach
 //@@ subst `InputHandle::from(` => `handle_to_input(` rule=R16
-//@@ subst `|_v0|` => `|_v0: ChanSendError|` rule=optional-R5
+//@@ subst `.map_err(|_v0| __E1)` => `.map_err(|_v0: ChanSendError| -> (o: SessionInnerError) ensures o is UnattachedHandle { __E1 })` rule=optional-R18
 //@@ spec
     ensures
         old(self).link_by_input_handle@.contains_key(InputHandle(attach.handle.0))
@@ -1239,7 +1245,7 @@ impl Session {
                     && final(self).link_by_input_handle@[InputHandle(attach.handle.0)].oh() == relay0.oh()
                     && (relay0 is Sender ==> final(self).link_by_input_handle@[InputHandle(attach.handle.0)].rsm() == attach.rcv_settle_mode)   // [C02.attach.rcv-settle-mode] the sender learns the receiver's settle mode from the attach   // [C11.route.attach-maps] the peer's handle now designates exactly this link
                     && (forall|k: InputHandle| k != InputHandle(attach.handle.0) && old(self).link_by_input_handle@.contains_key(k) ==> #[trigger] final(self).link_by_input_handle@[k] == old(self).link_by_input_handle@[k])
-            &&& r is Err ==> final(self).link_by_input_handle == old(self).link_by_input_handle
+            &&& r is Err ==> final(self).link_by_input_handle == old(self).link_by_input_handle && r->Err_0 is UnattachedHandle       // [C15.attach.endpoint-gone] the only way left to fail is that the local endpoint that asked for this link is gone: that is an unattached handle (the session ends with that condition), not an unknown name
         }),
         final(self).delivery_tag_by_id == old(self).delivery_tag_by_id,
         final(self).link_name_by_output_handle == old(self).link_name_by_output_handle,
